@@ -444,6 +444,9 @@ func (w *worker) runParse(v *vector) {
 		}
 		rng := caseRand(w.seed, k, s)
 		data := buildFrame(s, rng, w.u, false)
+		if s.App == "echo-waiter" {
+			w.echoWaiter(v, s, data)
+		}
 		bufs := threeBuffers(data, rng)
 		var obs [3]parseObs
 		for i := range bufs {
@@ -558,6 +561,54 @@ func (w *worker) runParse(v *vector) {
 			w.emit(rec{T: "sample", ID: v.ID, K: k, Hex: hex.EncodeToString(data), Got: fmt.Sprintf("err=%v id=%d %v", a.err, a.id, a.addr)})
 		}
 	}
+}
+
+// echoWaiter puts a ping in flight (Session.Ping in a goroutine registers a waiter in the
+// process-wide table), writes the waiter's id into the echo message and parses it twice back to
+// back: a duplicated reply must not make Parse panic.  The frame then goes through the normal
+// three-buffer observation as well.
+func (w *worker) echoWaiter(v *vector, s *pshape, data []byte) {
+	before := map[uint16]bool{}
+	for _, id := range packet.VerifPingWaiterIDs() {
+		before[id] = true
+	}
+	go w.s.Ping(packet.Addr{MAC: w.u.MAC("m1"), IP: w.u.IP("a1")}, 2*time.Second)
+	id, found := uint16(0), false
+	for i := 0; i < 2000 && !found; i++ {
+		for _, x := range packet.VerifPingWaiterIDs() {
+			if !before[x] {
+				id, found = x, true
+			}
+		}
+		if !found {
+			time.Sleep(100 * time.Microsecond)
+		}
+	}
+	if !found {
+		w.cnt["echo_waiter_not_registered"]++
+		return
+	}
+	o := 54
+	if s.Path == "ip4" {
+		o = 14 + 4*s.Ihl
+	}
+	if o+6 > len(data) {
+		return
+	}
+	data[o+4], data[o+5] = byte(id>>8), byte(id)
+	w.cnt["echo_waiter_cases"]++
+	buf := append([]byte{}, data...)
+	func() {
+		begin("Parse")
+		defer end()
+		defer func() {
+			if e := recover(); e != nil {
+				w.mm(v, "C01", "panic", "Parse", "", "returns (echo message parsed twice while a ping waiter with its id is registered)", "PANIC: "+fmt.Sprint(e), data)
+			}
+		}()
+		w.s.Parse(buf)
+		w.s.Parse(buf)
+	}()
 }
 
 func sortedAcc(m map[string]callResult) []string {
@@ -708,6 +759,20 @@ func (w *worker) runView(v *vector) {
 				w.cnt["range_compared"]++
 				if cr.val != exp {
 					w.mm(v, "C02", "getter", vs.View, l.G, exp, cr.val, data)
+				}
+			}
+		}
+		for _, mp := range vs.Maps {
+			if cr, ok := a.getters[mp.G]; ok && !cr.panicky {
+				parts := []string{}
+				for _, it := range mp.Items {
+					parts = append(parts, strconv.Itoa(it.K)+"="+rangeText(it.Lo, it.Hi))
+				}
+				sort.Strings(parts)
+				exp := "{" + strings.Join(parts, ",") + "}"
+				w.cnt["range_compared"]++
+				if cr.val != exp {
+					w.mm(v, "C02", "getter", vs.View, mp.G, exp, cr.val, data)
 				}
 			}
 		}
